@@ -1,0 +1,28 @@
+//go:build verif
+// +build verif
+
+package rtsp
+
+import "bytes"
+
+// Export for the verification harness (/verif, property C13).  Built only with
+// the "verif" tag; adds no behaviour to the package.
+
+// VerifDrainBuffers takes every staging buffer out of the package's pool (the one
+// tcpConsumer.Consume and Session.response assemble their ws-rtsp WebSocket
+// messages in) and returns them in the order Get handed them out.  To be called
+// only while no goroutine of the package is running: New is switched off for the
+// duration so that Get reports an empty pool instead of allocating.
+func VerifDrainBuffers() []*bytes.Buffer {
+	saved := buffers.New
+	buffers.New = nil
+	defer func() { buffers.New = saved }()
+	var out []*bytes.Buffer
+	for {
+		x := buffers.Get()
+		if x == nil {
+			return out
+		}
+		out = append(out, x.(*bytes.Buffer))
+	}
+}
